@@ -63,7 +63,7 @@ type callM struct {
 	cSeq     int
 	returned bool
 	placed   bool
-	bindDone bool // its completion callback (a BIND's) is running
+	bindDone bool    // its completion callback (a BIND's) is running
 	exD      *expect // degraded serial run: the stand-in clause only
 	retSeq   int     // event number of the pick's return (0 while it runs)
 	ex       *expect
@@ -234,7 +234,8 @@ func (m *Model) v(prop, rule, facts, msg string, op int) {
 		prop == "C03" && rule == "growth-while-pending" ||
 		!burst && prop == "C08" && rule == "stand-in-not-reused" ||
 		!burst && prop == "C01" && rule == "bound-key-not-on-home" ||
-		!burst && prop == "C09" && rule == "rr-not-cyclic")) {
+		!burst && prop == "C09" && rule == "rr-not-cyclic" ||
+		!burst && prop == "C02" && rule == "not-least-loaded")) {
 		// degraded serial runs (a live connection was shut down under the pool):
 		// C04 quantifies over "shutdowns in any order", its callback-level clauses
 		// stay judged; so do C20's address clauses (a connection that joins the pool
@@ -994,7 +995,10 @@ func (m *Model) pickInvoke(ev Event) {
 			// is not READY for good). Which channel becomes a stand-in is recorded,
 			// not judged.
 			if ex := m.expectPick(c, cm); ex.prop == "C08" && (ex.rule == "stand-in-not-reused" || ex.standIn != "") ||
-				ex.prop == "C01" && ex.rule == "bound-key-not-on-home" {
+				ex.prop == "C01" && ex.rule == "bound-key-not-on-home" ||
+				ex.prop == "C02" && ex.rule == "not-least-loaded" && ex.kind == "placed" && m.noneGone() {
+				// (and C02's least-loaded placement of unkeyed / unknown-key calls once
+				// every channel that was shut down has rejoined: the pool is what it was)
 				// (likewise C01's "no call for K is placed on another channel while K's
 				// channel is READY": the home is a channel still in the pool and READY)
 				cm.exD = &ex
@@ -1190,8 +1194,8 @@ func (m *Model) pickReturn(ev Event) {
 		return
 	}
 	if cm.ex == nil || m.track {
-		if ex := cm.exD; ex != nil && (ex.rule == "stand-in-not-reused" || ex.rule == "bound-key-not-on-home") && ex.kind == "placed" {
-			m.probe("degraded_" + map[string]string{"C08": "standin_reuse", "C01": "home_routing"}[ex.prop] + "_judged")
+		if ex := cm.exD; ex != nil && (ex.rule == "stand-in-not-reused" || ex.rule == "bound-key-not-on-home" || ex.rule == "not-least-loaded" && m.noneGone()) && ex.kind == "placed" {
+			m.probe("degraded_" + map[string]string{"C08": "standin_reuse", "C01": "home_routing", "C02": "least_loaded"}[ex.prop] + "_judged")
 			if res.Kind != ResPlaced || !ex.allowed[placedCh] {
 				m.v(ex.prop, ex.rule, ex.facts, fmt.Sprintf("call %d %s keys=%v on the latest picker: result %s (channel %d); want channel %v: %s", c.ID, c.MethodName, c.ReqKeys, res, placedCh, keysOf(ex.allowed), ex.why), ev.Op)
 			}
